@@ -171,6 +171,8 @@ class Module:
             if k not in fq_cache:
                 fq_cache[k] = alpha.functions_with_qualnames(tree_)
             return fq_cache[k]
+        from . import dispatch
+        self.normalized["tables"] = dispatch.expand_new_tables(self.tree, name, alpha.load_reference(), fq, lambda s_: normalize._StructRewrite({}).visit(s_))
         self.normalized["respelled"] = normalize.respell_new_constructs(self.tree, name, alpha.load_reference(), fq)
         self.normalized["comprehensions"] = normalize.comprehensions_to_loops(self.tree, name, alpha.load_reference(), fq)
         self.restored_locals = []
